@@ -4,7 +4,7 @@ CHECK_DEADLOCK FALSE
 CONSTANTS
   Kind = "map"
   Clients = {1}
-  U = 7
+  U = 6
   AttrLists <- AttrsMap
   EmptyAt = {3}
   MaxOps = 3
